@@ -1108,6 +1108,10 @@ fn db_snapshot(sh: &Shared, alive: bool) -> Value {
                 Err(_) => thread::sleep(Duration::from_millis(10)),
             }
         }
+        // a copy of the files of a running client, taken file by file, is not an observation of anything
+        if sh.client().map(|c| !c.is_dead()).unwrap_or(false) {
+            sh.inconclusive.lock().unwrap().push("database of the running client cannot be read".into());
+        }
     }
     let dir = sh.db_path.parent().unwrap().join("snapcopy");
     let _ = fs::remove_dir_all(&dir);
@@ -1183,22 +1187,27 @@ fn emit_obs(sh: &Shared, why: &str) {
         // The two reads are not one atomic observation: the rows are read from the database file, the memory through
         // listtowers (which waits for the client's state mutex).  A handler that completed between them would show as
         // "memory and disk disagree".  The rows are read again after the memory: if they moved, the observation is retaken.
-        for _ in 0..4 {
-            if mem.is_null() {
-                break;
+        let settle = |db: &mut Value, mem: &mut Value| {
+            for _ in 0..6 {
+                if mem.is_null() {
+                    break;
+                }
+                let db2 = db_snapshot(sh, alive);
+                if db2 == *db {
+                    break;
+                }
+                *db = db2;
+                *mem = mem_snapshot(sh, Duration::from_millis(1500));
             }
-            let db2 = db_snapshot(sh, alive);
-            if db2 == db {
-                break;
-            }
-            db = db2;
-            mem = mem_snapshot(sh, Duration::from_millis(1500));
-        }
+        };
+        settle(&mut db, &mut mem);
         if mem.is_null() && !client.as_ref().unwrap().is_dead() {
             // no answer: once more, patiently; then either a reported panic explains it (poisoned state mutex) or the
             // machine is too slow for this scenario to mean anything
             let panicked = !client.as_ref().unwrap().panics.lock().unwrap().is_empty();
             mem = mem_snapshot(sh, Duration::from_millis(if panicked { 1000 } else { 4000 }));
+            // the rows were read before the first, unanswered listtowers: they are old by now
+            settle(&mut db, &mut mem);
             if mem.is_null() && !client.as_ref().unwrap().is_dead() {
                 if client.as_ref().unwrap().panics.lock().unwrap().is_empty() {
                     sh.inconclusive.lock().unwrap().push("listtowers not answered within 4 s and no panic reported".into());
